@@ -2,6 +2,8 @@
 """Import confirmed seeded changes from /tmp/seed/out into /verif/seeded/<id>-<n>/ using the seedall logs.
 usage: tools/seedimport.py out/logs/seed_*.log"""
 import json, os, re, shutil, sys
+BASE = os.environ.get("SEEDBASE", "/tmp/seed")
+OFFSET = int(os.environ.get("SEEDOFFSET", "0"))
 
 res = {}
 cur = None
@@ -25,10 +27,10 @@ for path in sys.argv[1:]:
         m = re.match(r"check (C\d\d) \((\w+)\): rc=(\d+) ?(.*)", line)
         if m: r["checks"]["%s:%s" % (m.group(1), m.group(2))] = {"rc": int(m.group(3)), "signatures": m.group(4).split()}
 for (pid, n), r in sorted(res.items()):
-    src = "/tmp/seed/out/%s" % pid
+    src = "%s/out/%s" % (BASE, pid)
     suf = "" if n == 1 else "2"
     ok = r.get("demo_without") == 0 and r.get("demo_with") == 1 and r.get("baseline") == "131/131"
-    dst = "/verif/seeded/%s-%d" % (pid, n)
+    dst = "/verif/seeded/%s-%d" % (pid, n + OFFSET)
     if not ok:
         print("NOT CONFIRMED", pid, n, r)
         continue
